@@ -2,6 +2,7 @@ package sim
 
 import (
 	"encoding/json"
+	"io"
 	"errors"
 	"fmt"
 	"net/http"
@@ -127,6 +128,14 @@ func (u *c11Under) Flush() {
 	u.rec.flushed[u.rec.step] = true
 }
 
+// ReadFrom: the server's writer can take a body straight from a reader
+// (io.Copy looks for it), as net/http's does.
+func (u *c11Under) ReadFrom(r io.Reader) (int64, error) {
+	b, err := io.ReadAll(r)
+	n, _ := u.Write(b)
+	return int64(n), err
+}
+
 // the two documented unwrapping styles
 type wrapUnderlying struct{ inner http.ResponseWriter }
 
@@ -173,6 +182,11 @@ func c11Exec(plan Plan) *RunResult {
 			switch st.Kind {
 			case "panic":
 				panic("sim: the handler panics")
+			case "copy":
+				// the body comes from a reader that has no WriteTo of its own
+				if _, err := io.Copy(w, struct{ io.Reader }{strings.NewReader(st.str("data"))}); err != nil {
+					wrErrs = append(wrErrs, err.Error())
+				}
 			case "flush":
 				// a streaming handler releases the header early: through
 				// http.ResponseController (which follows Unwrap) or the
@@ -295,7 +309,7 @@ func c11Exec(plan Plan) *RunResult {
 			}
 			wrote = true
 			continue
-		case "write":
+		case "write", "copy":
 			if !wrote && expStatus == 0 {
 				expStatus = 200
 			}
@@ -451,7 +465,9 @@ func c11Generate(seed uint64, tier string) Plan {
 	for i := 0; i < n; i++ {
 		store := []string{"session", "cookie"}[r.Intn(2)]
 		key := keys[r.Intn(len(keys))]
-		switch r.Weighted([]int{8, 4, 2, 2, 2, 3, 3, 1}) {
+		switch r.Weighted([]int{8, 4, 2, 2, 2, 3, 3, 1, 1}) {
+		case 8:
+			prog = append(prog, Step{Kind: "copy", Str: map[string]string{"data": fmt.Sprintf("copied%d;", i)}})
 		case 7:
 			prog = append(prog, Step{Kind: "flush", Str: map[string]string{"via": []string{"controller", "controller", "assert"}[r.Intn(3)]}})
 		case 0:
